@@ -18,7 +18,8 @@ the rules see:
                                                          ->  `if not c: continue/return` ; S
   S5  guard splitting     `if a or b: J` (J jumps)       ->  `if a: J` ; `if b: J`
   S6  conditional value   `x = a if c else b` -> if/else ; `return a if c else b` -> guard + return
-                          `x = a` ; `if c: x = b`        ->  `if c: x = b else: x = a`   (a constant/name)
+                          `x = a` ; `if c(x): x = b(x)`  ->  `x1 = a` ; `if c(x1): x = b(x1) else: x = x1`
+  S17 equal branches      `if a: X elif b: Y else: X`    ->  `if not a and b: Y else: X`
   S7  accumulation loops  `v = []` ; `for x in it: [if c:] v.append(e)`  ->  `v = [e for x in it if c]`
                           (also dict / set forms, `async for`)
   S8  any / all           `return any(c for x in it)` -> `for x in it: if c: return True` ; `return False`
@@ -32,6 +33,8 @@ the rules see:
   S11 reduce              `acc = init` ; `for t in it: acc = f(acc, t)` -> `acc = functools.reduce(f, it, init)`
   S13 rebinding           `x = a` ; `x = f(x)` ; `use(x)`  ->  `x1 = a` ; `x = f(x1)` ; `use(x)`  (then S9 applies)
   S14 boolean returns     `return a and b`  ->  `if not a: return False` ; `return b`   (a syntactically boolean; `or` dually)
+  S15 tuple assignment    `a, b = x, y`  ->  `a = x` ; `b = y`
+  S16 return in try       `try: return e except: H(jumps)`  ->  `try: r = e except: H` ; `return r`
   S12 literal loops       `for x in (a, b): S(x)`  ->  `S(a)` ; `S(b)`   (at most four simple elements, no
                           `break`, `continue` only as leading guards, x not used afterwards)
 
@@ -608,6 +611,15 @@ class Canon:
             if s.orelse and jumps(s.orelse):
                 new = _loc(ast.If(test=negate(s.test), body=s.orelse, orelse=[]), s)
                 return [new] + s.body, 0
+            # S17 branches with the same body: `if a: X elif b: Y else: X`  ->  `if not a and b: Y else: X`
+            if s.orelse and len(s.orelse) == 1 and isinstance(s.orelse[0], ast.If) and s.orelse[0].orelse:
+                inner = s.orelse[0]
+                if _same(s.body, inner.orelse):
+                    test = nnf(_loc(ast.BoolOp(op=ast.And(), values=[negate(s.test), inner.test]), s))
+                    return [_loc(ast.If(test=test, body=inner.body, orelse=s.body), s)], 0
+                if _same(s.body, inner.body):
+                    test = nnf(_loc(ast.BoolOp(op=ast.Or(), values=[s.test, inner.test]), s))
+                    return [_loc(ast.If(test=test, body=s.body, orelse=inner.orelse), s)], 0
             # S2 orientation
             if s.orelse and isinstance(s.test, ast.UnaryOp) and isinstance(s.test.op, ast.Not):
                 s.test, s.body, s.orelse = s.test.operand, s.orelse, s.body
@@ -655,22 +667,42 @@ class Canon:
             return None
         if isinstance(s, ast.Assign) and len(s.targets) == 1:
             t = s.targets[0]
+            # S15 `a, b = x, y`  ->  `a = x` ; `b = y`   (no name of the left occurs on the right)
+            if (
+                isinstance(t, ast.Tuple) and isinstance(s.value, ast.Tuple) and len(t.elts) == len(s.value.elts)
+                and all(isinstance(x, ast.Name) for x in t.elts) and not any(isinstance(x, ast.Starred) for x in s.value.elts)
+                and not _mentions(s.value, {x.id for x in t.elts})  # type: ignore[attr-defined]
+                and all(_simple(v) or k == 0 for k, v in enumerate(s.value.elts))
+            ):
+                return [_loc(ast.Assign(targets=[a], value=v), s) for a, v in zip(t.elts, s.value.elts)], 0
             # S6 conditional value
             if isinstance(s.value, ast.IfExp) and isinstance(t, (ast.Name, ast.Attribute)):
                 ie = s.value
                 a = _loc(ast.Assign(targets=[copy.deepcopy(t)], value=ie.body), s)
                 b = _loc(ast.Assign(targets=[copy.deepcopy(t)], value=ie.orelse), s)
                 return [_loc(ast.If(test=ie.test, body=[a], orelse=[b]), s)], 0
-            # S6 default + override
+            # S6 default + override: `x = a` ; `if c(x): x = b(x)`  ->  `x1 = a` ; `if c(x1): x = b(x1) else: x = x1`
             if (
-                isinstance(t, ast.Name) and isinstance(s.value, (ast.Constant, ast.Name)) and rest
+                isinstance(t, ast.Name) and rest
                 and isinstance(rest[0], ast.If) and not rest[0].orelse and len(rest[0].body) == 1
                 and isinstance(rest[0].body[0], ast.Assign) and len(rest[0].body[0].targets) == 1
                 and isinstance(rest[0].body[0].targets[0], ast.Name) and rest[0].body[0].targets[0].id == t.id
-                and not _mentions(rest[0].test, {t.id}) and not _mentions(rest[0].body[0].value, {t.id})
             ):
-                nxt = rest[0]
-                return [_loc(ast.If(test=nxt.test, body=nxt.body, orelse=[s]), nxt)], 1
+                facts = NameFacts(self.fn)
+                x = t.id
+                if x not in facts.nested_refs and x not in facts.special:
+                    used = set(facts.stores) | set(facts.loads) | facts.special
+                    k = 1
+                    while f"{x}__{k}" in used:
+                        k += 1
+                    x1 = f"{x}__{k}"
+                    nxt = rest[0]
+                    ren = _Subst(x, ast.Name(id=x1, ctx=ast.Load()))
+                    first = _loc(ast.Assign(targets=[ast.Name(id=x1, ctx=ast.Store())], value=s.value), s)
+                    over = nxt.body[0]
+                    over.value = ren.visit(over.value)  # type: ignore[attr-defined]
+                    keep = _loc(ast.Assign(targets=[ast.Name(id=x, ctx=ast.Store())], value=ast.Name(id=x1, ctx=ast.Load())), s)
+                    return [first, _loc(ast.If(test=ren.visit(nxt.test), body=[over], orelse=[keep]), nxt)], 1
             # S7 accumulation loops, S11 reduce
             r2 = self._accumulate(s, rest)
             if r2 is not None:
@@ -708,6 +740,22 @@ class Canon:
                 return r4, 0
             return None
         if isinstance(s, ast.Try):
+            # S16 `try: ...; return e  except: H(jumps)`  ->  `try: ...; r = e  except: H` ; `return r`
+            if (
+                not s.orelse and not s.finalbody and s.handlers and all(jumps(h.body) for h in s.handlers)
+                and s.body and isinstance(s.body[-1], ast.Return) and s.body[-1].value is not None
+                and not any(isinstance(n, ast.Return) for b in s.body[:-1] for n in ast.walk(b))
+                and not isinstance(s.body[-1].value, (ast.Constant, ast.Name))
+            ):
+                facts = NameFacts(self.fn)
+                used = set(facts.stores) | set(facts.loads) | facts.special
+                k = 1
+                while f"_result{k if k > 1 else ''}" in used:
+                    k += 1
+                name = f"_result{k if k > 1 else ''}"
+                ret = s.body[-1]
+                s.body[-1] = _loc(ast.Assign(targets=[ast.Name(id=name, ctx=ast.Store())], value=ret.value), ret)
+                return [s, _loc(ast.Return(value=ast.Name(id=name, ctx=ast.Load())), ret)], 0
             # S10
             if s.orelse and not s.finalbody and s.handlers and all(jumps(h.body) for h in s.handlers):
                 tail = s.orelse
@@ -777,8 +825,10 @@ class Canon:
         x = s.target.id
         # x must not be read after the loop (it would keep its last value)
         facts = NameFacts(self.fn)
-        inside = _all_loads(s, x)
-        if facts.loads.get(x, 0) != inside or facts.stores.get(x, 0) != 1 or x in facts.nested_refs:
+        loops_x = [n for n in _own_nodes(self.fn) if isinstance(n, (ast.For, ast.AsyncFor)) and isinstance(n.target, ast.Name) and n.target.id == x]
+        nested = any(a is not b and any(c is b for c in ast.walk(a)) for a in loops_x for b in loops_x)
+        inside = sum(_all_loads(n, x) for n in loops_x)
+        if nested or facts.loads.get(x, 0) != inside or facts.stores.get(x, 0) != len(loops_x) or x in facts.nested_refs:
             return None
         body = _unguard(s.body)
         if body is None:
@@ -945,10 +995,25 @@ class Canon:
                 name, value = cand
                 nloads = facts.loads.get(name, 0)
                 # a tuple of global names / constants (`number_types = (int, float, Decimal)`): substitute everywhere
+                top_level = {
+                    t.id for st in fn.body for t in (st.targets if isinstance(st, ast.Assign) else [])  # type: ignore[attr-defined]
+                    if isinstance(t, ast.Name)
+                }
                 if isinstance(value, ast.Tuple) and nloads >= 1 and value.elts and all(
-                    isinstance(x, ast.Constant) or (isinstance(x, ast.Name) and facts.stores.get(x.id, 0) == 0 and x.id not in facts.special)
+                    isinstance(x, ast.Constant) or (isinstance(x, ast.Name) and (
+                        facts.stores.get(x.id, 0) == 0
+                        or (facts.stores.get(x.id, 0) == 1 and x.id in top_level and x.id not in facts.special)))
                     for x in value.elts
                 ):
+                    after = sum(_all_loads(x, name) for x in blk[i + 1:])
+                    if after == nloads:
+                        sub = _Subst(name, value)
+                        for k in range(i + 1, len(blk)):
+                            blk[k] = sub.visit(blk[k])
+                        del blk[i]
+                        return True
+                # a constant: substitute everywhere
+                if nloads >= 1 and isinstance(value, ast.Constant) and not isinstance(value.value, (str, bytes)):
                     after = sum(_all_loads(x, name) for x in blk[i + 1:])
                     if after == nloads:
                         sub = _Subst(name, value)
@@ -1091,6 +1156,10 @@ def _replace_head(s: ast.stmt, old: ast.expr, new: ast.expr) -> None:
                     return
     # in-place transformers return the same object: nothing to do
     return
+
+
+def _same(a: List[ast.stmt], b: List[ast.stmt]) -> bool:
+    return len(a) == len(b) and all(ast.dump(x) == ast.dump(y) for x, y in zip(a, b))
 
 
 def _store(t: ast.expr) -> ast.expr:
